@@ -54,7 +54,8 @@ def parse_dtype(interp, d, node):
     if isinstance(d, ExtRef):
         m = {
             'numpy.float64': 'f8', 'numpy.floating': 'f8', 'numpy.float32': 'f8', 'numpy.double': 'f8',
-            'numpy.bool_': 'b1', 'numpy.uint8': 'u1', 'numpy.int64': 'i8', 'numpy.int32': 'i8',
+            'numpy.bool_': 'b1', 'numpy.uint8': 'u1', 'numpy.int64': 'i8', 'numpy.int32': 'i8', 'numpy.intp': 'i8', 'numpy.int_': 'i8',
+            'numpy.integer': 'i8', 'numpy.longlong': 'i8', 'numpy.float_': 'f8', 'numpy.number': 'f8', 'numpy.bool': 'b1', 'numpy.object_': 'O',
             'numpy.byte': 'i8', 'numpy.datetime64': 'M8', 'numpy.timedelta64': 'm8',
             'builtins.float': 'f8', 'builtins.int': 'i8', 'builtins.bool': 'b1', 'builtins.object': 'O',
         }
@@ -63,7 +64,8 @@ def parse_dtype(interp, d, node):
     if isinstance(d, str):
         s = d
         m = {'float': 'f8', 'float64': 'f8', 'f8': 'f8', 'float32': 'f8', 'double': 'f8', 'uint8': 'u1', 'u1': 'u1',
-             'int': 'i8', 'int64': 'i8', 'i8': 'i8', 'int32': 'i8', 'bool': 'b1', 'object': 'O', 'O': 'O'}
+             'int': 'i8', 'int64': 'i8', 'i8': 'i8', 'int32': 'i8', 'bool': 'b1', 'object': 'O', 'O': 'O', 'intp': 'i8', 'int_': 'i8',
+             'f': 'f8', 'd': 'f8', 'i': 'i8', 'l': 'i8', 'q': 'i8', '?': 'b1', 'B': 'u1', '<f8': 'f8', '<i8': 'i8', '|b1': 'b1', '|u1': 'u1'}
         if s in m:
             return m[s], None
         for pre, code in (('datetime64', 'M8'), ('timedelta64', 'm8'), ('M8', 'M8'), ('m8', 'm8'), ('<M8', 'M8'), ('<m8', 'm8')):
